@@ -36,8 +36,13 @@ static pint cmp_keys (pconstpointer a, pconstpointer b, ppointer data) { (void) 
 /* ---- notifier log (C14) */
 #define LOGMAX (NPOS + 1)
 ppointer g_klog[LOGMAX], g_vlog[LOGMAX]; unsigned g_nk, g_nv; unsigned g_node_frees;
-static void key_destroy (ppointer k) { if (g_nk < LOGMAX) g_klog[g_nk] = k; g_nk++; }
-static void val_destroy (ppointer v) { if (g_nv < LOGMAX) g_vlog[g_nv] = v; g_nv++; }
+/* "never while the pair is still stored": during a remove, the node that carries the removed key must already be unlinked
+ * when a notifier runs (a notifier that looks the key up, or removes another one, must not meet the dying pair) */
+PTree *g_tree_under_remove; ppointer g_removed_kptr; _Bool g_notified_while_linked;
+static _Bool reach_key (PTreeBaseNode *n, ppointer k, int depth) { if (n == NULL || depth > H + 2) return 0; return n->key == k || reach_key (n->left, k, depth + 1) || reach_key (n->right, k, depth + 1); }
+static void note_linked (void) { if (g_tree_under_remove != NULL && reach_key (g_tree_under_remove->root, g_removed_kptr, 0)) g_notified_while_linked = 1; }
+static void key_destroy (ppointer k) { note_linked (); if (g_nk < LOGMAX) g_klog[g_nk] = k; g_nk++; }
+static void val_destroy (ppointer v) { note_linked (); if (g_nv < LOGMAX) g_vlog[g_nv] = v; g_nv++; }
 
 /* ---- symbolic well-formed tree of height <= H in heap order (children of i: 2i+1, 2i+2) */
 NODE *g_n[NPOS]; _Bool g_present[NPOS]; int g_key[NPOS]; ppointer g_kptr[NPOS], g_val[NPOS];
@@ -227,8 +232,11 @@ void h_remove (void)
 	SPLIT_ASSUME (k);
 	ppointer oldv = NULL, oldk = NULL, pv = NULL; _Bool existed = pre_member (k, &oldv, &oldk), pm = pre_member (probe, &pv, NULL);
 	unsigned n0 = pre_count ();
+	g_tree_under_remove = t; g_removed_kptr = oldk; g_notified_while_linked = 0;
 	pboolean r = p_tree_remove (t, KEYARG (k, tag));
+	g_tree_under_remove = NULL;
 	check_tree (t, probe);
+	OBL (!g_notified_while_linked, "C14 remove: the notifiers run only after the pair has been unlinked from the tree");
 	OBL ((r == TRUE) == existed && (r == TRUE || r == FALSE), "C12 remove: reports whether the key existed");
 	OBL (g_ok_order && g_ok_parent, "C12 remove: result is a search tree with consistent parent links");
 	OBL (g_cnt == n0 - (existed ? 1 : 0) && (unsigned) p_tree_get_nnodes (t) == g_cnt, "C12 remove: node count = number of distinct keys");
